@@ -1075,14 +1075,21 @@ func (mc *machine) exec1(s Step) bool {
 		*op = repl
 		// bookkeeping of uses
 		lst := mc.ops[user]
+		found := false
 		for i, v := range lst {
 			if v == old {
 				lst[i] = repl
 				mc.uses[old]--
-				mc.uses[repl]++
+				found = true
 				break
 			}
 		}
+		if !found {
+			// The old operand (e.g. a constant index) was not tracked; the new one
+			// must be, or a later "remove" would take away a value that is in use.
+			mc.ops[user] = append(lst, repl)
+		}
+		mc.uses[repl]++
 		mc.probes["operand replaced through Operands()"]++
 		if mc.printedOnce {
 			mc.probes["operand replaced through Operands() after a print"]++
